@@ -2,6 +2,7 @@ package rules
 
 import (
 	"fmt"
+	"os"
 	"go/constant"
 	"go/token"
 	"go/types"
@@ -199,7 +200,12 @@ func (rt *router) callDesc(fr *routeFrame, c *ssa.Call, d int) string {
 	name := core.CalleeID(c)
 	name = name[strings.LastIndex(name, ".")+1:]
 	args := c.Call.Args
+	recvPrefix := ""
 	if g := core.StaticCallee(c); g != nil && g.Signature.Recv() != nil && len(args) > 0 {
+		if !rt.p.InSubject(g) {
+			// a method of a foreign value (reflect.Value.Index(i).Interface()): the receiver is part of what is named
+			recvPrefix = rt.desc(fr, args[0], d+1) + "."
+		}
 		args = args[1:]
 	}
 	var as []string
@@ -215,7 +221,7 @@ func (rt *router) callDesc(fr *routeFrame, c *ssa.Call, d int) string {
 	if c.Call.IsInvoke() {
 		return rt.desc(fr, c.Call.Value, d+1) + "." + name + "(" + strings.Join(as, ",") + ")"
 	}
-	return name + "(" + strings.Join(as, ",") + ")"
+	return recvPrefix + name + "(" + strings.Join(as, ",") + ")"
 }
 
 func (rt *router) evalBool(fr *routeFrame, v ssa.Value) bool {
@@ -629,7 +635,7 @@ func ObjectRouting(p *core.Prog, r *core.Report) {
 		regular, regKnown := at("has(recv." + fProps + "," + K + ")")
 		matchedByPattern := false
 		for a, v := range run.atoms {
-			if strings.HasPrefix(a, "ret0:MatchString(") && v {
+			if strings.Contains(a, "MatchString(") && v {
 				matchedByPattern = true
 			}
 		}
@@ -766,6 +772,11 @@ func SliceRouting(p *core.Prog, r *core.Report) {
 			return
 		}
 		nNormal++
+		if os.Getenv("VCHK_ROUTE") != "" {
+			for _, e := range run.events {
+				fmt.Println("EVENT", e)
+			}
+		}
 		at := func(a string) (val, known bool) { val, known = run.atoms[a]; return }
 		find := func(sub string) (string, bool, bool) {
 			for a, v := range run.atoms {
@@ -815,13 +826,26 @@ func SliceRouting(p *core.Prog, r *core.Report) {
 			viols = append(viols, viol{"items-as-tuple: the element at a position inside the tuple is not validated against the schema of that position", cfg})
 		}
 		// additionalItems
-		_, moreV, moreKnown := find("<ret0:Len(")
+		_, moreV, moreKnown := find(".Len()")
 		addSet, addKnown := at("recv." + fAddI + "==nil")
 		addPresent := addKnown && !addSet
 		more := moreKnown && moreV
 		if v, known := at("recv." + fAddI + ".Schema==nil"); known && !v && addPresent && more && tupleSure {
 			if !hasEv("VALIDATE[recv." + fAddI + ".Schema](") {
 				viols = append(viols, viol{"additionalItems-as-schema: an element beyond the tuple is not validated against additionalItems", cfg})
+			}
+		}
+		// first element of each loop: the list and the tuple start at 0, additionalItems right after the tuple
+		for _, e := range run.events {
+			switch {
+			case strings.HasPrefix(e, "VALIDATE[recv."+fItems+".Schema]("), strings.HasPrefix(e, "VALIDATE[recv."+fItems+".Schemas["):
+				if !strings.Contains(e, ".Index(0).") {
+					viols = append(viols, viol{"items loop does not start at the first element: " + e, cfg})
+				}
+			case strings.HasPrefix(e, "VALIDATE[recv."+fAddI+".Schema]("):
+				if !strings.Contains(e, ".Index(ret0:len(recv."+fItems+".Schemas)).") {
+					viols = append(viols, viol{"additionalItems loop does not start at the element that follows the tuple: " + e, cfg})
+				}
 			}
 		}
 		if hasEv("VALIDATE[recv."+fAddI+".Schema](") && !(addPresent && tuple) {
@@ -849,8 +873,8 @@ func SliceRouting(p *core.Prog, r *core.Report) {
 	for _, v := range viols {
 		byWhat[v.what] = append(byWhat[v.what], v.cfg)
 	}
-	clauses := []string{"items-as-schema", "items-as-tuple", "additionalItems-as-schema", "additionalItems applied although", "additionalItems:false", "'additional items not allowed' is raised"}
-	names := []string{"items:schema", "items:tuple", "additionalItems:schema", "additionalItems:only-after-tuple", "additionalItems:false", "additionalItems:false:only-then"}
+	clauses := []string{"items-as-schema", "items-as-tuple", "additionalItems-as-schema", "additionalItems applied although", "additionalItems:false", "'additional items not allowed' is raised", "items loop does not start", "additionalItems loop does not start"}
+	names := []string{"items:schema", "items:tuple", "additionalItems:schema", "additionalItems:only-after-tuple", "additionalItems:false", "additionalItems:false:only-then", "items:from-first-element", "additionalItems:from-tuple-length"}
 	for k, cl := range clauses {
 		var hit string
 		n := 0
